@@ -28,3 +28,15 @@ let rec sx_of_json (j : json) : Sx.t =
   | JArr l -> L (A "a" :: List.map sx_of_json l)
   | JObj ms -> L (A "o" :: List.map (fun (k, v) -> L [sx_of_str k; sx_of_json v]) ms)
 
+
+(* OCaml string (ASCII) -> Coq string (extracted as an inductive over 8-bool ascii) *)
+let ascii_of_char (c : char) : ascii =
+  let n = Char.code c in
+  let b i = (n lsr i) land 1 = 1 in
+  Ascii (b 0, b 1, b 2, b 3, b 4, b 5, b 6, b 7)
+
+let coqstr (s : Stdlib.String.t) : string =
+  let rec go i = if i >= Stdlib.String.length s then EmptyString else String (ascii_of_char (Stdlib.String.get s i), go (i + 1)) in
+  go 0
+
+let coqstr_of_sx = function A s -> coqstr s | _ -> failwith "coqstr_of_sx"
